@@ -48,22 +48,22 @@ def gen_format_files(g):
     if len(calls) != 1:
         raise NotGenerated("format_files: exactly one call on the worker pool expected")
     call = calls[0]
-    g.oblige("table", "pool-method-preserves-input-order", [], z3.BoolVal(call.func.attr in ("starmap", "map")), call.lineno)
-    g.oblige("table", "worker-is-format_file", [], z3.BoolVal(bool(call.args) and ast.unparse(call.args[0]) == "format_file"), call.lineno)
+    g.oblige_text("table", "pool-method-preserves-input-order", call.func.attr in ("starmap", "map"), call.lineno)
+    g.oblige_text("table", "worker-is-format_file", bool(call.args) and ast.unparse(call.args[0]) == "format_file", call.lineno)
     gen = call.args[1] if len(call.args) > 1 else None
     if not isinstance(gen, (ast.GeneratorExp, ast.ListComp)) or len(gen.generators) != 1:
         raise NotGenerated("format_files: task list is not a single comprehension")
     it = gen.generators[0].iter
     tgt = gen.generators[0].target
-    g.oblige("table", "tasks-iterate-a-named-list", [], z3.BoolVal(isinstance(it, ast.Name) and not gen.generators[0].ifs), call.lineno)
+    g.oblige_text("table", "tasks-iterate-a-named-list", isinstance(it, ast.Name) and not gen.generators[0].ifs, call.lineno)
     itname = it.id if isinstance(it, ast.Name) else "?"
     asg = _assigned_before(fn, itname, call)
-    g.oblige("dataflow", "dispatch-list-is-sorted", [], z3.BoolVal(asg is not None and isinstance(asg.value, ast.Call) and ast.unparse(asg.value.func) == "sorted" and not asg.value.keywords), call.lineno)
+    g.oblige_text("dataflow", "dispatch-list-is-sorted", asg is not None and isinstance(asg.value, ast.Call) and ast.unparse(asg.value.func) == "sorted" and not asg.value.keywords, call.lineno)
     # every component of a task depends on the file of that task only (or on loop-invariant inputs)
     elts = gen.elt.elts if isinstance(gen.elt, ast.Tuple) else []
     tname = tgt.id if isinstance(tgt, ast.Name) else "?"
     ok = len(elts) == 3 and ast.unparse(elts[0]) == tname and ast.unparse(elts[1]) == f"filename_preserve[{tname}]" and ast.unparse(elts[2]) == "safe"
-    g.oblige("dataflow", "task-arguments-depend-on-the-file-only", [], z3.BoolVal(bool(ok)), call.lineno)
+    g.oblige_text("dataflow", "task-arguments-depend-on-the-file-only", bool(ok), call.lineno)
     # results are paired with files through the same list
     zips = [n for n in ast.walk(fn) if isinstance(n, ast.Call) and ast.unparse(n.func) == "zip"]
     res_asg = [n for n in ast.walk(fn) if isinstance(n, ast.Assign) and n.value is call]
@@ -71,16 +71,16 @@ def gen_format_files(g):
     okz = len(zips) == 1 and [ast.unparse(a) for a in zips[0].args] == [itname, resname]
     between = [n for n in ast.walk(fn) if isinstance(n, (ast.Assign, ast.AugAssign)) and zips and call.lineno < n.lineno <= zips[0].lineno
                and any(isinstance(t, ast.Name) and t.id == itname for t in (n.targets if isinstance(n, ast.Assign) else [n.target]))]
-    g.oblige("dataflow", "results-paired-through-the-dispatch-list", [], z3.BoolVal(bool(okz) and not between), (zips[0] if zips else call).lineno)
+    g.oblige_text("dataflow", "results-paired-through-the-dispatch-list", bool(okz) and not between, (zips[0] if zips else call).lineno)
     # per-file preserve set: a union of sets selected by a predicate on (name, file) -> independent of iteration order
     fp = _assigned_before(fn, "filename_preserve", call)
     okp = fp is not None and isinstance(fp.value, ast.DictComp) and ast.unparse(fp.value.value).startswith("frozenset().union(*")
-    g.oblige("table", "per-file-preserve-is-an-order-free-union", [], z3.BoolVal(bool(okp)), (fp or call).lineno)
+    g.oblige_text("table", "per-file-preserve-is-an-order-free-union", bool(okp), (fp or call).lineno)
     ret = [n for n in fn.body if isinstance(n, ast.Return)]
     okr = len(ret) == 1 and isinstance(ret[0].value, ast.Call) and ast.unparse(ret[0].value.func) == "any"
-    g.oblige("table", "change-report-is-an-order-free-any", [], z3.BoolVal(bool(okr)), (ret[0] if ret else fn).lineno)
+    g.oblige_text("table", "change-report-is-an-order-free-any", bool(okr), (ret[0] if ret else fn).lineno)
     first = [n for n in ast.walk(fn) if isinstance(n, ast.For) and "sorted(filenames)" in ast.unparse(n.iter)]
-    g.oblige("table", "folders-filled-from-the-sorted-argument", [], z3.BoolVal(len(first) == 1), fn.lineno)
+    g.oblige_text("table", "folders-filled-from-the-sorted-argument", len(first) == 1, fn.lineno)
 
 
 def gen_format_file_frame(g):
@@ -89,12 +89,12 @@ def gen_format_file_frame(g):
     g.sha = segment_sha(text, fn)
     g.lines = [fn.lineno, fn.end_lineno]
     opens = [n for n in ast.walk(fn) if isinstance(n, ast.Call) and ast.unparse(n.func) in ("open", "io.open")]
-    g.oblige("frame", "some-file-access", [], z3.BoolVal(len(opens) >= 1), fn.lineno)
+    g.oblige_text("frame", "some-file-access", len(opens) >= 1, fn.lineno)
     for k, o in enumerate(opens):
-        g.oblige("frame", f"open-{k}-is-on-the-given-file", [], z3.BoolVal(bool(o.args) and ast.unparse(o.args[0]) == "filename"), fn.lineno)
+        g.oblige_text("frame", f"open-{k}-is-on-the-given-file", bool(o.args) and ast.unparse(o.args[0]) == "filename", fn.lineno)
     asg = [n for n in ast.walk(fn) if isinstance(n, ast.Assign) and any(isinstance(t, ast.Name) and t.id == "filename" for t in n.targets)]
     ok = len(asg) <= 1 and all(ast.unparse(a.value) == "Path(filename).resolve().absolute()" for a in asg)
-    g.oblige("frame", "filename-is-the-parameter", [], z3.BoolVal(bool(ok)), fn.lineno)
+    g.oblige_text("frame", "filename-is-the-parameter", bool(ok), fn.lineno)
     others = [n for n in ast.walk(fn) if isinstance(n, ast.Attribute) and n.attr in ("write_text", "write_bytes", "unlink", "rename", "replace", "mkdir", "touch")]
-    g.oblige("frame", "no-other-file-system-write", [], z3.BoolVal(not others), fn.lineno)
+    g.oblige_text("frame", "no-other-file-system-write", not others, fn.lineno)
     g.assumptions.add("format_code has no file-system effect (reads pyproject.toml / traces imports only)")
